@@ -51,7 +51,13 @@ def run(tier, seed):
     insts = []
     items = [("dag", u) for u in C.spread(dag, 80 if quick else 495)] + \
             [("digraph", u) for u in C.spread(cyc, 20 if quick else 72) + C.spread(cyc4, 100 if quick else 1200)]
-    for kind, u in items:
+    # node names that are prefixes / suffixes of each other around the separator the library's helper-node names are built with:
+    # ("a", "b_c") and ("a_b", "c") are different edges
+    UNDERSCORED = ["a", "a_b", "b_c", "c", "b", "a_b_c", "c_c"]
+    for j, (kind, u) in enumerate(items):
+        if j % 5 == 4:
+            u = C.rename_scheme(u, UNDERSCORED[:len(u["nodes"])])
+            res.count_class("underscored_node_names")
         nodes = u["nodes"] + ["S*", "T*"]
         for h in rng.sample(hs, 2 if quick else 4):
             ops = []
@@ -96,6 +102,9 @@ def run(tier, seed):
     # (zero-flow) edges around the min cut are where a cut extraction goes wrong while the VALUE stays right
     for _ in range(60 if quick else 600):
         u = C.random_dag(rng, rng.randint(5, 7), rng.randint(6, 10))
+        if rng.random() < 0.3:
+            u = C.rename_scheme(u, UNDERSCORED[:len(u["nodes"])])
+            res.count_class("underscored_node_names")
         srcs = [v for v in u["nodes"] if all(e[1] != v for e in u["edges"])]
         snks = [v for v in u["nodes"] if all(e[0] != v for e in u["edges"])]
         AE = [list(e) for e in u["edges"]] + [["S*", v] for v in srcs] + [[v, "T*"] for v in snks]
@@ -160,7 +169,7 @@ def run(tier, seed):
     res.rule = ("query histories = TLC -simulate behaviours of Substrate.tla (cache state machine, depth 8) mapped onto TLC-enumerated "
                 "DAGs / cyclic digraphs (planted flows as weights), plus antichain queries under 3 weight functions (default, small, "
                 "0/1/10^6) and bottleneck peeling; every answer validated by Trace_Substrate against Graphs!ReachFrom etc.")
-    return res.finish(known, require_classes=["queries_validated", "repeated_queries(warm cache)", "antichain_queries", "peelings"])
+    return res.finish(known, require_classes=["queries_validated", "repeated_queries(warm cache)", "antichain_queries", "peelings", "underscored_node_names"])
 
 
 def replay(path, seed):
